@@ -22,7 +22,7 @@ E3_CORPUS = [
     dict(name="g9_pager", file="/repo/tests/src/special/pager_g1/pager_g1.rustemo", args=[], quick=False),
     dict(name="json", file="/repo/examples/json/src/json.rustemo", args=[], quick=False),
     dict(name="layout", file="/repo/tests/src/layout/generic_tree/layout.rustemo", args=[], quick=True),
-    dict(name="lexamb", file="/repo/tests/src/lexical_ambiguity/priorities/priorities.rustemo", args=[], quick=False),
+    dict(name="lexamb", file="/repo/tests/src/lexical_ambiguity/priorities/priorities.rustemo", args=[], quick=True),  # try order != declaration order (seed C08-f)
     dict(name="glr_lexamb", file="/repo/tests/src/glr/lexical_ambiguity/longest_match_off/longest_match.rustemo", args=["--glr", "--ms=false", "--lm=false"], quick=False),
     dict(name="glr_g2", file="/verif/corpus/g2_nullable.rustemo", args=["--glr"], quick=False),
     dict(name="partial", file="/repo/tests/src/partial/partial.rustemo", args=["--prefer-shifts", "--partial"], quick=False),
@@ -250,6 +250,7 @@ pub mod {name} {{
                         (True, '        kani::cover!(true, "end of harness reachable");\n')) if c_),
                     cov_expected="".join(l for c_, l in (
                         (any(len(st_["sorted_terminals"]) >= 2 for st_ in t["states"]), '        kani::cover!(want.len() >= 2, "state with several expected tokens");\n'),
+                        (any(a_[0] > b_[0] for st_ in t["states"] for a_, b_ in zip(st_["sorted_terminals"][:3], st_["sorted_terminals"][1:4])), '        kani::cover!(want.len() >= 2 && want[0].0 > want[1].0 || want.len() >= 3 && want[1].0 > want[2].0 || want.len() >= 4 && want[2].0 > want[3].0, "state whose try order differs from declaration order");\n'),
                         (True, '        kani::cover!(true, "end of harness reachable");\n')) if c_),
                     nt_order=('assert!(nt as usize == n, "C08 the arrays layout indexes goto columns by the NonTermKind discriminant");' if layout == "arr" else "// functions layout: goto arms match by name"),
                     want_actions=want_actions, want_gotos=want_gotos, want_exp=want_exp, prod_nt=prod_nt,
